@@ -26,11 +26,14 @@ Definition bytes := list N.
 Definition bytes_eqb : bytes -> bytes -> bool := list_eqb N.eqb.
 Definition is_nil {A} (l : list A) : bool := match l with [] => true | _ => false end.
 
-Inductive tx := TPut (k : N) (v : bytes) | TDel (k : N).
+(* TOther: every other transaction kind (Embed, NodeCreate/Delete, EdgeCreate, TableInsert/Update/Delete,
+   CompareAndSwap): they write under their own key prefixes and never touch the modelled data keys *)
+Inductive tx := TPut (k : N) (v : bytes) | TDel (k : N) | TOther (kind a b : N).
 Definition tx_eqb (a b : tx) : bool :=
   match a, b with
   | TPut k v, TPut k' v' => N.eqb k k' && bytes_eqb v v'
   | TDel k, TDel k' => N.eqb k k'
+  | TOther x a b, TOther x' a' b' => N.eqb x x' && N.eqb a a' && N.eqb b b'
   | _, _ => false
   end.
 
@@ -220,7 +223,7 @@ Definition build_signed (m : cmem) (me : bytes) (txs : list tx) (sroot emb : byt
 
 (* ---------------------------------------------------------------- store + workspaces (lib.rs, transaction.rs) *)
 Definition apply_tx (d : list (N * bytes)) (t : tx) : list (N * bytes) :=
-  match t with TPut k v => aset d k v | TDel k => adel d k end.
+  match t with TPut k v => aset d k v | TDel k => adel d k | TOther _ _ _ => d end.
 Definition apply_txs (d : list (N * bytes)) (l : list tx) : list (N * bytes) := fold_left apply_tx l d.
 
 (* TransactionState: Active=0 Committing=1 Committed=2 RolledBack=3 Failed=4 *)
